@@ -115,6 +115,16 @@ def run_product(st, opts):
         ops, names = [x, y], ["x", "y"]
         gshape, gkind = N, "tt"
         want = ("tt", N, [])
+    sc = cfg.get("scale", "unit")
+    if sc != "unit":
+        # the same mathematical operands, badly scaled: one non-final core of the first operand times 1e5, or everything tiny
+        cs = [c.clone() for c in ops[0].cores]
+        if sc == "bigcore":
+            cs[min(1, len(cs) - 2) if len(cs) >= 3 else 0] *= 1e5
+        else:
+            cs[0] *= 1e-5
+        ops[0] = tt.TT(cs)
+        ref = ref * (1e5 if sc == "bigcore" else 1e-5)
     g = None
     if cfg["guess"] in ("fresh", "reused"):
         g = rand_tt(tt, gshape, 1, gen, dt)
